@@ -1,7 +1,7 @@
 (* Store/Model.v — C30: the struct-backed resource store (internal/resources) over SQLite.
    Executable definitions only.  Strings are UTF-8 byte lists.
 
-   Transliterated Go (tree after fix 1e0c750d; the pinned behaviour is kept as *_old):
+   Transliterated Go (tree after fixes 1e0c750d and 704512eb; the pinned behaviour is kept as *_old / step_nokey):
      filters.go   newFilter (column lookup by strings.EqualFold over r.Columns, first match; the exported
                   constructors have VALUE receivers so r.Err never reaches the shared handle), Filter.Generate
      generators.go readRowSQL / createTableSQL / doesTableExistSQL / insertSQL / updateSQL / deleteRowSQL
@@ -359,8 +359,10 @@ Section Engine.
     match o with
     | OCreate => do_create s
     | OCreateIf =>
+        (* 704512eb: SetDefaultPrimaryKey first, also when the table is already there *)
+        let k := match shk s with Some k => k | None => ki end in
         match sdb s with
-        | Some _ => (s, ROk, [SExists])
+        | Some _ => (mkst (sdb s) (stk s) (Some k) (sord s), ROk, [SExists])
         | None => let '(s', x, q) := do_create s in (s', x, SExists :: q)
         end
     | OInsert r => let q := SInsert r in let '(s', x) := run_stmt s q in (s', x, [q])
@@ -412,6 +414,13 @@ Section Engine.
     | _ => step s o
     end.
 
+  (* before 704512eb: CreateIf on an existing table left the handle without a key column *)
+  Definition step_nokey (s : st) (o : op) : st * res * list stmt :=
+    match o, sdb s with
+    | OCreateIf, Some _ => (s, ROk, [SExists])
+    | _, _ => step s o
+    end.
+
   Fixpoint run_from (stp : st -> op -> st * res * list stmt) (s : st) (h : list op) : st * list res :=
     match h with
     | [] => (s, [])
@@ -419,6 +428,7 @@ Section Engine.
     end.
   Definition run (h : list op) : st * list res := run_from step st0 h.
   Definition run_old (h : list op) : st * list res := run_from step_old st0 h.
+  Definition run_nokey (h : list op) : st * list res := run_from step_nokey st0 h.
 
   Fixpoint trace_from (s : st) (h : list op) : list (res * list stmt) :=
     match h with
@@ -470,7 +480,7 @@ Definition spec_step (cols : list column) (s : st) (o : op) : st * res :=
   match o with
   | OCreate | OCreateIf =>
       match sdb s, o with
-      | Some _, OCreateIf => (s, ROk)
+      | Some _, OCreateIf => (mkst (sdb s) (stk s) (Some (match shk s with Some k => k | None => key_index cols end)) (sord s), ROk)
       | Some _, _ => (mkst (sdb s) (stk s) (Some (match shk s with Some k => k | None => key_index cols end)) (sord s), RErr)
       | None, _ => let k := match shk s with Some k => k | None => key_index cols end in
                    (mkst (Some []) k (Some k) (sord s), ROk)
